@@ -2,3 +2,4 @@ import Generated.Facts
 import Generated.CoreAssign
 import Generated.CoreHandleIf
 import Generated.CoreScanner
+import Generated.CoreConsiderLine
